@@ -246,11 +246,24 @@ def gelu (form : String) (sw : List Nat) (consts : List Float) (rank1 : Int) : S
 
 /-! ## BiasGelu (`bias_gelu.py`) -/
 
+/-- `BiasGeluFusion.check` on (`input`, `bias`).  `fixed = false`: the rule as first found (rank of the bias
+only, finding C19-F1); `fixed = true`: the repaired rule, which also requires the input's shape to be known with
+rank ≥ 1 and the bias length to be an `int` equal to the input's last dimension.  Which of the two /repo
+currently implements is probed by the harness on every run. -/
+def biasOk (fixed : Bool) (input bias : Option Shape) : Bool :=
+  hasRank bias 1 &&
+    (!fixed ||
+      (match input, bias with
+       | some ish, some [.int n] => (match ish.getLast? with
+                                      | some (.int m) => n == m
+                                      | _ => false)
+       | _, _ => false))
+
 /-- `[rule, rule.commuted]` for the chosen Gelu flavour: `Add(input, bias)` then `Add(bias, input)`. -/
-def biasGelu (approxTanh : Bool) (a b : Option Shape) : String :=
+def biasGelu (fixed : Bool) (approxTanh : Bool) (a b : Option Shape) : String :=
   if approxTanh then "count=0"
-  else if hasRank b 1 then "count=1 BiasGelu@com.microsoft{}(a,b)->1"
-  else if hasRank a 1 then "count=1 BiasGelu@com.microsoft{}(b,a)->1"
+  else if biasOk fixed a b then "count=1 BiasGelu@com.microsoft{}(a,b)->1"
+  else if biasOk fixed b a then "count=1 BiasGelu@com.microsoft{}(b,a)->1"
   else "count=0"
 
 /-! ## Softmax upcast removal (`softmax.py`) -/
@@ -314,8 +327,20 @@ structure FmmIn where
   cstConst : Bool
   cstShape : List Nat
   cst : Float
+  /-- which repairs /repo currently contains (probed by the harness on every run):
+      F3 flag swap in `MatMulTranspose.rewrite`, F4 rank ≥ 3 in the batch rules, F5 `get_ints("perm")`,
+      F9 divisor of rank ≤ 1 with exactly one element -/
+  fix3 : Bool := false
+  fix4 : Bool := false
+  fix5 : Bool := false
+  fix9 : Bool := false
 
 def flip (v : Option Int) : Option Int := some (1 - v.getD 0)
+
+/-- `(transA, transB)` emitted by `MatMulTranspose.rewrite` for an inner `(a, b)` (operands are swapped):
+as first found `(1-a, 1-b)` (finding C19-F3), repaired `(1-b, 1-a)`. -/
+def mtFlags (fixed : Bool) (a b : Int) : Int × Int :=
+  if fixed then (1 - b, 1 - a) else (1 - a, 1 - b)
 
 def fmmOut (a : FAttrs) (swapped : Bool) : String :=
   s!"count=1 FusedMatMul@com.microsoft\{{a.show}}({if swapped then "y,x" else "x,y"})->1"
@@ -326,6 +351,8 @@ def fmm (i : FmmIn) : String :=
   match i.kind with
   | "div" =>
     if !(i.cstConst && size ≤ 1) then "count=0" else
+    -- repaired check: exactly one element and rank ≤ 1
+    if i.fix9 && !(size == 1 && i.cstShape.length ≤ 1) then "count=0" else
     -- `float(value[0] if value.shape == (1,) else value)`: NumPy ≥ 2 refuses float() of a rank ≥ 2 (or rank-1
     -- handled above) array → the rewrite raises TypeError
     if i.cstShape.length ≥ 2 then "EXC" else
@@ -337,7 +364,8 @@ def fmm (i : FmmIn) : String :=
     let ok := i.rank == 2 && (match i.perm with | none => true | some p => p.isEmpty || p == [1, 0])
     if !ok then "count=0" else
     let a := i.inner.getD FAttrs.empty
-    fmmOut { a with transA := flip a.transA, transB := flip a.transB } true
+    let (ta, tb) := mtFlags i.fix3 (a.transA.getD 0) (a.transB.getD 0)
+    fmmOut { a with transA := some ta, transB := some tb } true
   | k =>
     if k != "t1" && k != "t2" then "count=0" else
     let pos1 := k == "t1"
@@ -353,10 +381,11 @@ def fmm (i : FmmIn) : String :=
     else if i.inner.isNone then "count=0"
     else
       match i.perm with
-      | none => "EXC"      -- `transposed_node.attributes["perm"]` → KeyError
+      | none => if i.fix5 then "count=0" else "EXC"   -- `transposed_node.attributes["perm"]` → KeyError
       | some p =>
         if p.isEmpty then "count=0" else
         let n := p.length
+        if i.fix4 && n < 3 then "count=0" else
         let flipB (x : FAttrs) := if pos1 then { x with transBatchA := flip x.transBatchA } else { x with transBatchB := flip x.transBatchB }
         let flipT (x : FAttrs) := if pos1 then { x with transA := flip x.transA } else { x with transB := flip x.transB }
         -- rule order: FlippedBatch, FlippedBatchAndTranspose, BatchAndTranspose
